@@ -347,6 +347,7 @@ def _derives_from_arg(F, B, l, seen):
 
 def run(ctx, rep):
     balance.rule_bal(ctx, rep)
+    balance.rule_unw(ctx, rep)  # histories include operations that unwind: the count must still equal the owners afterwards
     rule_delta(ctx, rep)
     n = balance.rule_cbzero(ctx, rep)
     rep.floor("R-CBZERO", 5, "five public callback borrowers (with_raw_offset_arc, ThinArc::with_arc, with_arc_mut, OffsetArc::with_arc, ArcBorrow::with_arc)")
